@@ -165,6 +165,106 @@ def float_subset_cores(Af, ss):
     return out, sorted(attained)
 
 
+
+# ------------------------------------------------------------------ history / object-reuse probes (round 3)
+
+PROBE_TARGETS = ('kcore_bu', 'kcore_bd', 'kcoreness_centrality_bu', 'kcoreness_centrality_bd', 'score_wu')
+
+
+def run_probe(job, bct, out, viol):
+    """One reuse probe = common.reuse_probe(target, (A, k)) where `mutate` (i) optionally calls another routine of the
+    property ("warm") on the SAME array object — values unchanged —, (ii) optionally edits in place the core that this call
+    returned, (iii) optionally lesions / re-weights the matrix in place (symmetrically: stays in the domain).  The second call
+    of the target on the same object must equal the call on fresh copies."""
+    rs = np.random.RandomState(job['pseed'])
+    target, warm, edit = job['probe']
+    wu = target == 'score_wu'
+    A = np.array([[float(Fr(x)) for x in row] for row in job['A']])
+    n = len(A)
+    par = float(Fr(job['k'])) if wu else int(job['k'])
+    par2 = float(Fr(job['k2'])) if (wu or warm == 'score_wu') else int(job['k2'])
+    fn = getattr(bct, target)
+    args = [A] if target.startswith('kcoreness') else [A, par]
+    log = []
+
+    def mutate(a):
+        M = a[0]
+        ret = None
+        if warm != 'none':
+            wf = getattr(bct, warm)
+            ret = call(wf, M, t=T_CALL) if warm.startswith('kcoreness') else call(wf, M, par2, t=T_CALL)
+            log.append('%s(A%s) on the same object' % (warm, '' if warm.startswith('kcoreness') else ', %r' % par2))
+        if edit in ('core', 'core+lesion') and ret is not None and ret[0] == 'ok' and isinstance(ret[1], tuple) and isinstance(ret[1][0], np.ndarray) and ret[1][0].ndim == 2:
+            core = ret[1][0]
+            how = rs.randint(3)
+            if how == 0:
+                call(bct.binarize, core, copy=False, t=T_CALL); log.append('binarize(returned core, copy=False)')
+            elif how == 1:
+                core *= 4; log.append('returned core *= 4')
+            else:
+                core[:] = 0; log.append('returned core[:] = 0')
+        if edit in ('lesion', 'core+lesion'):
+            for _ in range(int(rs.randint(1, 3))):
+                i, j = [int(x) for x in rs.choice(n, size=2, replace=False)]
+                if wu:
+                    v = 0.0 if (M[i, j] and rs.rand() < .5) else float(rs.randint(1, 9)) / 4
+                else:
+                    v = 0.0 if M[i, j] else 1.0
+                M[i, j] = M[j, i] = v
+                log.append('A[%d,%d] = A[%d,%d] = %r in place' % (i, j, j, i, v))
+
+    d = reuse_probe(fn, args, mutate, t=T_CALL)
+    out['evals'] += 1
+    out['status']['probe'] = out['status'].get('probe', 0) + 1
+    if d is not None:
+        d['between_the_two_calls'] = log
+        d['matrix_at_second_call'] = A.tolist()
+        viol(target, 'result-depends-on-history', d, 'second call on the same array object = call on fresh copies')
+    else:
+        out['nontrivial'].append(digest(['probe', job['probe'], job['A'], job['k'], job['pseed']]))
+    return out
+
+
+def gen_probes(rs, m):
+    jobs = []
+    combos = []
+    bins = ('kcore_bu', 'kcore_bd', 'kcoreness_centrality_bu', 'kcoreness_centrality_bd')
+    for t_ in bins:
+        for w in ('none',) + bins:
+            for e in (('none', 'lesion') if w != 'none' else ('lesion',)):
+                if not (w == t_ and e == 'none'):
+                    combos.append((t_, w, e))
+        combos.append((t_, 'kcore_bu', 'core+lesion'))
+    for e in ('lesion', 'core', 'core+lesion', 'none'):
+        combos.append(('score_wu', 'score_wu', e))
+    combos.append(('score_wu', 'none', 'lesion'))
+    # the pairs that share degrees / sweeps get extra weight
+    heavy = [c for c in combos if c[0] == 'score_wu' or {c[0], c[1]} <= {'kcore_bu', 'kcore_bd', 'kcoreness_centrality_bd', 'kcoreness_centrality_bu'} and c[1] != 'none' and c[0][-2:] != c[1][-2:]]
+    for q in range(m):
+        c = combos[q % len(combos)] if q % 2 == 0 else heavy[(q // 2) % len(heavy)]
+        n = int(rs.randint(5, 10))
+        if c[0] == 'score_wu':
+            A = rand_und(rs, n, rs.choice([.5, .7, .9]), tuple(str(Fr(k, 4)) for k in range(1, 9)))
+            Aq = [[Fr(x) for x in r] for r in A]
+            strs = sorted({sum(Aq[w][v] for w in range(n)) for v in range(n)} - {0}) or [Fr(1)]
+            s2 = strs[int(rs.randint(len(strs)))] + rs.choice([0, Fr(1, 8), Fr(-1, 8), Fr(1, 2)])
+            s2 = max(s2, Fr(1, 4))
+            s1 = s2 - rs.choice([0, Fr(1, 4), Fr(1, 2), Fr(1)])          # the earlier call of the sweep uses s1 <= s2
+            s1 = max(s1, Fr(1, 8))
+            jobs.append({'kind': 'probe', 'probe': list(c), 'A': [[str(x) for x in r] for r in A], 'k': str(s2), 'k2': str(s1), 'ks': [],
+                         'pseed': int(rs.randint(1 << 30))})
+        else:
+            A = rand_und(rs, n, rs.choice([.3, .5, .7]))
+            if rs.rand() < .3:                       # a ring plus chords: undirected degree 2..3, in+out degree 4..6
+                A = [[0] * n for _ in range(n)]
+                for i in range(n):
+                    A[i][(i + 1) % n] = A[(i + 1) % n][i] = 1
+            dmax = max(sum(1 for x in r if x) for r in A)
+            k = int(rs.randint(1, 2 * dmax + 2))
+            k2 = str(Fr(int(rs.randint(1, 5)), 2)) if c[1] == 'score_wu' else int(rs.randint(1, 2 * dmax + 2))
+            jobs.append({'kind': 'probe', 'probe': list(c), 'A': A, 'k': k, 'k2': k2, 'ks': [], 'pseed': int(rs.randint(1 << 30))})
+    return jobs
+
 # ------------------------------------------------------------------ one job = one matrix, all its k / s
 
 def run_job(job):
@@ -181,6 +281,9 @@ def run_job(job):
     def viol(func, pred, obs, exp, cond=None, **extra):
         c = dict(job); c.update(extra)
         out['viol'].append((func, pred, {'case': c, 'observed': obs, 'expected': exp}, cond or {}))
+
+    if kind == 'probe':
+        return run_probe(job, bct, out, viol)
 
     if kind in ('bu', 'bd'):
         func = 'kcore_' + kind
@@ -539,6 +642,8 @@ def gen_jobs(rs, tier):
         e = dict(j); e['rep'] = rep
         extra.append(e)
     jobs += extra
+    # --- history / object-reuse probes
+    jobs += gen_probes(rs, 900 if th else 150)
     # --- malformed stream (no claim; correspondence only): asymmetric / weighted / self-loops into the undirected routines
     for _ in range(60 if th else 20):
         n = int(rs.randint(2, 7))
@@ -568,14 +673,19 @@ def main():
         ck.leanchecker(['BctVerif.Props.C15', 'BctVerif.Model.Core'])
     if ck.replay:
         c = json.load(open(ck.replay))['case']['case']
-        jobs = [{'kind': c['kind'], 'A': c['A'], 'ks': c['ks'], 'malformed': c.get('malformed', False), 'rep': c.get('rep'), 'max_s': c.get('max_s')}]
+        jobs = [{'kind': c['kind'], 'A': c['A'], 'ks': c['ks'], 'malformed': c.get('malformed', False), 'rep': c.get('rep'), 'max_s': c.get('max_s'),
+                 'probe': c.get('probe'), 'k': c.get('k'), 'k2': c.get('k2'), 'pseed': c.get('pseed')}]
     else:
         jobs = gen_jobs(ck.rs, ck.tier)
+        # history across calls: never group by routine or size — every worker sees routines, options and sizes interleaved
+        jobs = [jobs[i] for i in ck.rs.permutation(len(jobs))]
     results = pmap(run_job, jobs)
     lines, exps, funcs = [], [], []
     ntimeouts = 0
     for job, r in zip(jobs, results):
         ck.count('jobs:' + job['kind'] + (':malformed' if job.get('malformed') else ''))
+        if job['kind'] == 'probe':
+            ck.count('probe:%s after %s, edit=%s' % tuple(job['probe']))
         if job.get('rep'):
             ck.count('rep:' + job['rep'])
         if r.get('dec_ties'):
